@@ -141,17 +141,17 @@ Theorem C12_break_resolves_line : forall di l r,
 Proof. exact resolve_line_spec. Qed.
 Print Assumptions C12_break_resolves_line.
 
-Theorem C12_break_sets_resolved : forall di l d r,
+Theorem C12_break_sets_resolved : forall m fuel di l d r,
   d_status d = Live -> 0 <= l -> resolve_line di l = Some r ->
-  let d' := exec_cmd (mkModule [] [] [] 0 None) di O d (CBreak l) in
+  let d' := exec_cmd m di fuel d (CBreak l) in
   d_bps d' = d_bps d ++ [r_start r] /\ d_m d' = d_m d.
 Proof. exact break_sets_resolved. Qed.
 Print Assumptions C12_break_sets_resolved.
 
 (* delbr L removes one occurrence of that address and nothing else, and leaves the machine alone *)
-Theorem C12_delbr_removes : forall di l d r,
+Theorem C12_delbr_removes : forall m fuel di l d r,
   d_status d = Live -> 0 <= l -> resolve_line di l = Some r ->
-  let d' := exec_cmd (mkModule [] [] [] 0 None) di O d (CDelbr l) in
+  let d' := exec_cmd m di fuel d (CDelbr l) in
   let a := r_start r in
   count_occ Z.eq_dec (d_bps d') a = pred (count_occ Z.eq_dec (d_bps d) a) /\
   (forall b, b <> a -> count_occ Z.eq_dec (d_bps d') b = count_occ Z.eq_dec (d_bps d) b) /\
